@@ -156,7 +156,8 @@ theorem commensurate_spec (C : Ctx K) (hs : UeqSound C.ueq) (rule : Rule) (f : S
     cases hr : (rule == Rule.comparison) <;> simp
 
 /-- `==` between incommensurable operands answers all-False, `!=` all-True; the only effects are
-    on `out=` (written, and labelled dimensionless) -/
+    on `out=` (written, and labelled dimensionless; a 0-d second operand with `out=` hits an
+    `IndexError` in `ret[:]` instead) -/
 theorem eq_ne_mismatch_answers (C : Ctx K) (hs : UeqSound C.ueq) (c : Call K) (i0 i1 : Operand K)
     (c0 c1 : Option (UnitR K)) (isNe : Bool)
     (hin : c.inputs = [i0, i1]) (hp : (c.ufunc == C.T.powerName) = false)
@@ -167,7 +168,7 @@ theorem eq_ne_mismatch_answers (C : Ctx K) (hs : UeqSound C.ueq) (c : Call K) (i
     (hd : (resolved i0 c0).v.dim ≠ (resolved i1 c1).v.dim)
     (hz : zeroAdoptionApplies i0 i1 = false)
     (hd0 : (resolved i0 c0).v.isDimensionless = false) (hd1 : (resolved i1 c1).v.isDimensionless = false)
-    (hout : ∀ os, c.out ≠ .many os) :
+    (hout : ∀ os, c.out ≠ .many os) (hsh : c.out = .none ∨ (i1.data.shape == []) = false) :
     ∃ o, (dispatch C c).result = .ok o ∧ o.early = some isNe ∧ o.unit = none := by
   have hspec := commensurate_spec C hs .comparison c.ufunc i0 i1 _ _ hd
   simp only [hz, Bool.false_and, Bool.false_eq_true, if_false, BEq.rfl, Bool.true_and, hd0, hd1] at hspec
@@ -182,7 +183,11 @@ theorem eq_ne_mismatch_answers (C : Ctx K) (hs : UeqSound C.ueq) (c : Call K) (i
   simp only [hkr, Bool.false_and, Bool.false_eq_true, if_false, Rule.checked, if_true, hchk]
   cases hco : c.out with
   | none => exact ⟨_, rfl, rfl, rfl⟩
-  | one o => exact ⟨_, rfl, rfl, rfl⟩
+  | one o =>
+    rcases hsh with h | h
+    · rw [hco] at h; cases h
+    · simp only [h, Bool.false_eq_true, if_false]
+      exact ⟨_, rfl, rfl, rfl⟩
   | many os => exact absurd hco (hout os)
 
 /-- a bare all-zero second operand adopts the first operand's unit (and vice versa): the check
